@@ -65,6 +65,7 @@ func c19Servers(n int) []UpstreamServerConfig {
 }
 
 func Harness_C19_pick() {
+	ghostStarted = nil
 	n := 1 + verifChoice("servers", 3)
 	opt := UpstreamServerOption{Name: "u", Policy: c19Policies[verifChoice("policy", len(c19Policies))], Servers: c19Servers(n),
 		HealthCheck: c19HealthChecks[verifChoice("healthCheck", len(c19HealthChecks))]}
@@ -77,6 +78,9 @@ func Harness_C19_pick() {
 	// 5xx would then count as healthy), and a path is not rewritten
 	verifAssert("C19.wiring.health-check-path-is-the-configured-one", srv.HTTPUpstream.Ping == opt.HealthCheck)
 	verifAssert("C19.wiring.policy-is-the-configured-one", srv.HTTPUpstream.Policy == opt.Policy)
+	// "traffic resumes by itself once a server recovers": the periodic checker runs for every group,
+	// also when every server failed the first check
+	verifAssert("C19.wiring.periodic-health-check-always-started", len(ghostStarted) == 1 && ghostStarted[0] == srv.HTTPUpstream)
 	healthyPrimary, healthyBackup := false, false
 	for i, u := range list {
 		verifAssert("C19.wiring.backup-flag", u.Backup == opt.Servers[i].Backup)
